@@ -74,7 +74,9 @@ SPEC = {
             [ob('harness_marker', unwind=120, unwindset=SYMB, timeout=1800, tier='thorough', defines=['-DMARKMAX=2', '-DMARKPOSMAX=9'], bounds='shown text any 0..2 bytes, offset 0..length, reported position 0..9; createDifferenceAtPosString')] +
             [ob('harness_marker', unwind=170, unwindset=SYMB, timeout=7200, tier='thorough', solver='kissat', bounds='shown text any 0..4 bytes, offset 0..length, reported position any 64-bit value; createDifferenceAtPosString')] +
             [ob('harness_show_9_00', unwind=170, unwindset=SYMB, timeout=1800, tier='thorough', bounds='operand strings 0..1 bytes over the full byte range, user text 0..1 byte; FeatureUnsupportedFailure')] +
-            [ob('harness_number_%d' % k, unwind=170, unwindset=SYMB, timeout=3600, tier='thorough', defines=['-DNUMMAX=99'], solver='kissat', bounds='both operands of magnitude <= 99 (signed classes: -99..99); ' + NUM[k]) for k in range(5)] +
+            # harness_number_0..4 (Longs/UnsignedLongs/LongLongs/UnsignedLongLongs/SignedBytesEqualFailure: decimal + hexadecimal of both operands):
+            # symbolic execution does not finish - full 64-bit operands: no verdict in 1800 s each; magnitudes <= 99: killed at 24 GB after 2770 s.  Not claimed
+            # (the number formatters are C13's subject, the comparison itself C03's); the harness stays in h14m.c.
             [ob('harness_doubles', unwind=170, unwindset=SYMB, timeout=1800, tier='thorough', bounds='operands and threshold any double incl. NaN and infinities; DoublesEqualFailure')],
     }],
 }
